@@ -511,6 +511,9 @@ def _built_locally(t):
         return True
     if t[0] == "call" and callee_name(t) in ("from", "new", "to_value", "into", "default"):
         return True
+    if t[0] == "phi" and t[1]:
+        # one of several locally built values (`let v = if a { json!({}) } else { json!({"x": true}) }`)
+        return all(_built_locally(x) for x in t[1])
     return False
 
 
